@@ -125,17 +125,17 @@ Section Text.
   Qed.
 
   Lemma reloaded_read_uniform (r : srow V) :
-    List.length (r_params r) = List.length (pids Ws) -> uniform_depth Ws -> names_injective tps Ws ->
+    List.length (r_params r) = List.length (pids Ws) -> uniform_depth Ws -> (all_flat Ws -> names_injective tps Ws) ->
     param_list tps Ws (reloaded false r) = Ok (r_params r).
   Proof.
     intros HL [HN|HF] HI.
     - rewrite reloaded_nested by assumption. apply param_list_from_row; assumption.
     - unfold reloaded. rewrite init_keeps_strings; [|exact HL|apply flat_no_dot; exact HF].
-      apply param_list_str_kw; assumption.
+      apply param_list_str_kw; try assumption. apply HI. exact HF.
   Qed.
 
   Lemma reloaded_read_fixed (r : srow V) :
-    List.length (r_params r) = List.length (pids Ws) -> names_injective tps Ws ->
+    List.length (r_params r) = List.length (pids Ws) -> (all_flat Ws -> names_injective tps Ws) ->
     param_list tps Ws (reloaded true r) = Ok (r_params r).
   Proof.
     intros HL HI. unfold reloaded.
@@ -150,7 +150,7 @@ Section Text.
         apply in_map_iff in Hin. destruct Hin as [[k v] [E Hkv]]. simpl in E. subst k.
         apply (Ex (skey p, v) Hkv). }
       rewrite init_keeps_strings by assumption.
-      apply param_list_str_kw; try assumption. apply no_dot_flat. exact Hnd.
+      apply param_list_str_kw; try assumption; [apply no_dot_flat; exact Hnd|apply HI; apply no_dot_flat; exact Hnd].
   Qed.
 
   (* ---------------------------------------------------------------- one row of samples.csv *)
@@ -253,7 +253,7 @@ Section Text.
   Qed.
 
   Theorem csv_partial (rows : list (srow V)) :
-    rows_ok Ws rows -> uniform_depth Ws -> no_reserved Ws -> names_injective tps Ws ->
+    rows_ok Ws rows -> uniform_depth Ws -> no_reserved Ws -> (all_flat Ws -> names_injective tps Ws) ->
     res_bind (csv_roundtrip fmt parse add false tps Ws (from_lists false Ws rows)) (observe tps Ws) = Ok (expected rows).
   Proof.
     intros HRo HU HR HI. rewrite csv_roundtrip_reloaded by assumption. simpl.
@@ -261,7 +261,7 @@ Section Text.
   Qed.
 
   Theorem csv_fixed (rows : list (srow V)) :
-    rows_ok Ws rows -> no_reserved Ws -> names_injective tps Ws ->
+    rows_ok Ws rows -> no_reserved Ws -> (all_flat Ws -> names_injective tps Ws) ->
     res_bind (csv_roundtrip fmt parse add true tps Ws (from_lists true Ws rows)) (observe tps Ws) = Ok (expected rows).
   Proof.
     intros HRo HR HI. rewrite csv_roundtrip_reloaded by assumption. simpl.
@@ -299,7 +299,7 @@ Section Text.
   Qed.
 
   Theorem json_partial (drop0 : bool) (r : srow V) :
-    List.length (r_params r) = List.length (pids Ws) -> no_zero drop0 r -> uniform_depth Ws -> names_injective tps Ws ->
+    List.length (r_params r) = List.length (pids Ws) -> no_zero drop0 r -> uniform_depth Ws -> (all_flat Ws -> names_injective tps Ws) ->
     let s := json_roundtrip fmt parse is_zero false drop0 (from_row false Ws r) in
     param_list tps Ws s = Ok (r_params r) /\ s_ll s = r_ll r /\ s_lp s = r_lp r /\ s_w s = r_w r.
   Proof.
@@ -308,7 +308,7 @@ Section Text.
   Qed.
 
   Theorem json_fixed (r : srow V) :
-    List.length (r_params r) = List.length (pids Ws) -> names_injective tps Ws ->
+    List.length (r_params r) = List.length (pids Ws) -> (all_flat Ws -> names_injective tps Ws) ->
     let s := json_roundtrip fmt parse is_zero true false (from_row true Ws r) in
     param_list tps Ws s = Ok (r_params r) /\ s_ll s = r_ll r /\ s_lp s = r_lp r /\ s_w s = r_w r.
   Proof.
